@@ -1,5 +1,5 @@
 SPECIFICATION Spec
 CONSTANTS MaxLen = 7
 Alphabet <- Alpha8
-INVARIANTS NormalFormSafe NormalFormFixed IdentitySafe InsideProtected
+INVARIANTS NormalFormSafe NormalFormFixed IdentitySafe InsideProtected AsIsIndexSafe AsIsOKOutsideKnown FixedOK FixedIdem
 CHECK_DEADLOCK FALSE
